@@ -148,17 +148,17 @@ theorem wholeMonths_antisymm (y1 m1 d1 y2 m2 d2 : Int) :
 
 /-! ## Implementation model vs. calendar: validity -/
 
--- FULL STATEMENT (not provable of the current code, finding F13-day0):
---   ∀ y m d, -999999999 ≤ y ≤ 999999999 → isValidDate y m d = validDate y m d
 /-- `is_valid_date` (chrono first, own leap rule as fallback) is calendar validity for every
-representable year, except that the fallback lets day 0 through. -/
-theorem valid_iff_partial (y : Int) (m d : Nat) (hy0 : -999999999 ≤ y) (hy1 : y ≤ 999999999)
-    (hd : d ≠ 0) : isValidDate y m d = validDate y m d :=
-  isValidDate_eq y m d hy0 hy1 (by omega)
+representable year (full strength since the repair of F13-day0: the fallback requires
+`day >= 1`). -/
+theorem valid_iff (y : Int) (m d : Nat) (hy0 : -999999999 ≤ y) (hy1 : y ≤ 999999999) :
+    isValidDate y m d = validDate y m d :=
+  isValidDate_eq y m d hy0 hy1
 
 example : isValidDate 999999999 2 28 = true ∧ isValidDate 999999999 2 29 = false := by decide
 
-theorem valid_iff_counterexample : isValidDate 2021 2 0 = true ∧ validDate 2021 2 0 = false := by
+/-- Regression witness of F13-day0: day 0 is rejected, inside and outside chrono's range. -/
+theorem valid_iff_day_zero : isValidDate 2021 2 0 = false ∧ isValidDate 999999 2 0 = false := by
   decide
 
 /-! ## Order of dates (after fix 0b125e0: tuple comparison, no chrono) -/
@@ -230,18 +230,20 @@ theorem date_order_total (a b : Date) :
 
 /-! ## Weekday -/
 
--- FULL STATEMENT (not provable of the current code, finding F8-weekday):
---   ∀ d, validDate d.y d.m d.d → Date.weekday d = .val (weekday (daysFromCivil d.y d.m d.d))
-/-- Inside chrono's year range the weekday of a date is the calendar's. -/
-theorem weekday_eq_partial (d : Date) (hc : chronoDateOk d.y d.m d.d = true) :
-    d.weekday = .val (weekday (daysFromCivil d.y d.m d.d)) := by
+/-- The weekday of a date is the calendar's, for every year (full strength since the repair of
+F8-weekday: outside chrono's range the code computes it from the day number). -/
+theorem weekday_eq (d : Date) : d.weekday = .val (weekday (daysFromCivil d.y d.m d.d)) := by
   unfold Date.weekday weekdayOf
-  rw [toChrono_midnight, if_pos hc]
+  rw [toChrono_midnight]
+  by_cases hc : chronoDateOk d.y d.m d.d = true
+  · rw [if_pos hc]
+  · rw [if_neg hc]
 
-example : chronoDateOk 2020 2 29 = true ∧ (⟨2020, 2, 29⟩ : Date).weekday = .val 6 := by decide
+example : (⟨2020, 2, 29⟩ : Date).weekday = .val 6 := by decide
 
-theorem weekday_counterexample :
-    validDate 999999 1 1 = true ∧ (⟨999999, 1, 1⟩ : Date).weekday = .none := by decide
+/-- Regression witness of F8-weekday. -/
+theorem weekday_beyond_chrono :
+    validDate 999999 1 1 = true ∧ (⟨999999, 1, 1⟩ : Date).weekday = .val 5 := by decide
 
 /-! ## Date-times on the UTC line -/
 
@@ -329,74 +331,77 @@ theorem property_access (d : Date) (t : Time) (o : Option Int) :
 
 /-! ## `date(y, m, d)` from numbers -/
 
--- FULL STATEMENT (not provable of the current code, findings F13-narrow):
---   dateFromNumbers yr mo dy = some ⟨y, m, d⟩ only if yr, mo, dy are the integers y, m, d and
---   (y, m, d) is a calendar date; otherwise none
-/-- On integral components inside the ranges of the narrow types, `date(y, m, d)` is exactly
-calendar validity. -/
-theorem date_from_numbers_rejects_partial (y : Int) (m d : Nat)
-    (hy0 : -999999999 ≤ y) (hy1 : y ≤ 999999999) (hm : m ≤ 255) (hd : d ≤ 255) :
-    dateFromNumbers ⟨y, 0⟩ ⟨m, 0⟩ ⟨d, 0⟩ =
-      if validDate y m d then some ⟨y, m, d⟩ else none := by
+/-- `date(y, m, d)` is a date exactly when the three numbers are integers that name a day of
+the calendar with a year in −999999999…999999999, and it is that date; everything else is null
+(full strength since the repair of F13-round, F13-narrow and F13-year). -/
+theorem date_from_numbers_rejects (yr mo dy : Dec) :
+    dateFromNumbers yr mo dy =
+      if yr.isInt && mo.isInt && dy.isInt && decide (-999999999 ≤ yr.intVal ∧ yr.intVal ≤ 999999999) &&
+          validDate yr.intVal mo.intVal dy.intVal then
+        some ⟨yr.intVal, mo.intVal.toNat, dy.intVal.toNat⟩
+      else none := by
   unfold dateFromNumbers
-  have ey : (Dec.mk y 0).toI32 = y := by
-    unfold Dec.toI32 Dec.roundHalfEven; simp; omega
-  have em : (Dec.mk m 0).toU8 = m := by
-    unfold Dec.toU8 Dec.toU32 Dec.roundHalfEven; simp
-    rw [if_pos (by omega)]; omega
-  have ed : (Dec.mk d 0).toU8 = d := by
-    unfold Dec.toU8 Dec.toU32 Dec.roundHalfEven; simp
-    rw [if_pos (by omega)]; omega
-  simp only [ey, em, ed]
-  by_cases hpos : (0 : Int) < (m : Int) ∧ (0 : Int) < (d : Int)
-  · have hd1 : 1 ≤ d := by omega
-    rw [if_pos (by simpa using hpos), isValidDate_eq y m d hy0 hy1 hd1]
-  · have hv : validDate y m d = false := by
-      cases h : validDate y m d
-      · rfl
-      · rw [validDate_iff] at h; omega
-    rw [if_neg (by simpa using hpos), hv]; simp
+  by_cases hi : (yr.isInt && mo.isInt && dy.isInt) = true
+  · simp only [hi, if_true, Bool.true_and]
+    generalize yr.intVal = y
+    generalize mo.intVal = m
+    generalize dy.intVal = d
+    by_cases hy : -999999999 ≤ y ∧ y ≤ 999999999
+    · by_cases hmd : (1 ≤ m ∧ m ≤ 12) ∧ (1 ≤ d ∧ d ≤ 31)
+      · have hm' : ((m.toNat : Nat) : Int) = m := by omega
+        have hd' : ((d.toNat : Nat) : Int) = d := by omega
+        have hv := isValidDate_eq y m.toNat d.toNat hy.1 hy.2
+        rw [hm', hd'] at hv
+        simp only [hy, hmd, and_self, if_true, hv, decide_true, Bool.true_and]
+      · have hv : validDate y m d = false := by
+          cases h : validDate y m d
+          · rfl
+          · rw [validDate_iff] at h
+            have dm : daysInMonth y m ≤ 31 := by
+              unfold daysInMonth; split <;> (try split) <;> (try split) <;> (try split) <;> omega
+            omega
+        simp [hy, hmd, hv]
+    · simp [hy]
+  · simp only [hi, Bool.false_eq_true, if_false, Bool.false_and]
 
 example : dateFromNumbers ⟨2020, 0⟩ ⟨2, 0⟩ ⟨29, 0⟩ = some ⟨2020, 2, 29⟩ ∧
-    dateFromNumbers ⟨2021, 0⟩ ⟨2, 0⟩ ⟨29, 0⟩ = none := by decide
+    dateFromNumbers ⟨2021, 0⟩ ⟨2, 0⟩ ⟨29, 0⟩ = none ∧
+    dateFromNumbers ⟨20200, -1⟩ ⟨2, 0⟩ ⟨29, 0⟩ = some ⟨2020, 2, 29⟩ := by decide
 
-/-- Witnesses: 257 months are month 1; 1.5 and 0.5 round half-even to 2 and 0; a year beyond
-`i32` is year 0. -/
-theorem date_from_numbers_counterexample :
-    dateFromNumbers ⟨2021, 0⟩ ⟨257, 0⟩ ⟨1, 0⟩ = some ⟨2021, 1, 1⟩ ∧
-    dateFromNumbers ⟨2021, 0⟩ ⟨15, -1⟩ ⟨5, -1⟩ = some ⟨2021, 2, 0⟩ ∧
-    dateFromNumbers ⟨3000000000, 0⟩ ⟨1, 0⟩ ⟨1, 0⟩ = some ⟨0, 1, 1⟩ := by decide
+/-- Regression witnesses of F13-narrow, F13-round and F13-year: all null now. -/
+theorem date_from_numbers_rejects_instances :
+    dateFromNumbers ⟨2021, 0⟩ ⟨257, 0⟩ ⟨1, 0⟩ = none ∧
+    dateFromNumbers ⟨2021, 0⟩ ⟨15, -1⟩ ⟨25, -1⟩ = none ∧
+    dateFromNumbers ⟨2021, 0⟩ ⟨15, -1⟩ ⟨5, -1⟩ = none ∧
+    dateFromNumbers ⟨3000000000, 0⟩ ⟨1, 0⟩ ⟨1, 0⟩ = none := by decide
 
 /-! ## Years-and-months duration between two dates -/
 
--- FULL STATEMENT (not provable of the current code, finding F20-ym):
---   ∀ from to, Date.ymDuration to from = wholeMonths from to
-/-- `years and months duration(from, to)` is the signed number of whole months, except when
-both dates are in the same year and `to` is the earlier one (the code branches on the years
-only). -/
-theorem ym_whole_months_partial (frm to : Date)
-    (h : frm.y ≠ to.y ∨ dateLt to.y to.m to.d frm.y frm.m frm.d = false) :
+/-- `years and months duration(from, to)` is the signed number of whole months between the two
+dates, for all dates (full strength since the repair of F20-ym: the code now branches on the
+full date order). -/
+theorem ym_whole_months (frm to : Date) :
     to.ymDuration frm = wholeMonths frm.y frm.m frm.d to.y to.m to.d := by
   unfold Date.ymDuration wholeMonths wholeMonthsFwd
-  by_cases hy : to.y < frm.y
-  · have hl : dateLt to.y to.m to.d frm.y frm.m frm.d = true := by rw [dateLt_iff]; omega
+  by_cases hy : to.compare frm = .lt
+  · have hl : dateLt to.y to.m to.d frm.y frm.m frm.d = true := (Date.compare_lt_iff to frm).1 hy
     simp only [if_pos hy, hl, if_true]
     split <;> split <;> omega
   · have hl : dateLt to.y to.m to.d frm.y frm.m frm.d = false := by
-      rcases h with h | h
-      · cases hh : dateLt to.y to.m to.d frm.y frm.m frm.d
-        · rfl
-        · rw [dateLt_iff] at hh; omega
-      · exact h
+      cases hh : dateLt to.y to.m to.d frm.y frm.m frm.d
+      · rfl
+      · exact absurd ((Date.compare_lt_iff to frm).2 hh) hy
     simp only [if_neg hy, hl, Bool.false_eq_true, if_false]
     split <;> split <;> omega
 
 example : (⟨2013, 8, 24⟩ : Date).ymDuration ⟨2011, 12, 22⟩ = 20 ∧
     (⟨2011, 12, 22⟩ : Date).ymDuration ⟨2013, 8, 24⟩ = -20 := by decide
 
-theorem ym_whole_months_counterexample :
-    (⟨2021, 1, 15⟩ : Date).ymDuration ⟨2021, 3, 10⟩ = -2 ∧
-    wholeMonths 2021 3 10 2021 1 15 = -1 := by decide
+/-- Regression witnesses of F20-ym (same year, `to` before `from`). -/
+theorem ym_whole_months_same_year :
+    (⟨2021, 1, 15⟩ : Date).ymDuration ⟨2021, 3, 10⟩ = -1 ∧
+    (⟨2021, 1, 10⟩ : Date).ymDuration ⟨2021, 3, 15⟩ = -2 ∧
+    (⟨2021, 3, 10⟩ : Date).ymDuration ⟨2021, 3, 15⟩ = 0 := by decide
 
 /-! ## Duration components and arithmetic -/
 
@@ -428,22 +433,26 @@ theorem ym_components_sum (n : Int) :
     (0 ≤ n → 0 ≤ ymdMonths n ∧ 0 ≤ ymdYears n) ∧ (n ≤ 0 → ymdMonths n ≤ 0 ∧ ymdYears n ≤ 0) :=
   ymd_sum n
 
--- FULL STATEMENT (not provable of the current code, finding F21-durops): the same laws for
--- years-and-months durations (`feelAddYmd`, `feelNegYmd` are `none`: no such arms in the
--- evaluator) and binary `-` on days-and-time durations (`feelSubDtd` is `none`).
-/-- Days-and-time durations under `+` and unary `-` are the ordered abelian group of their
-total lengths. -/
-theorem dur_add_neg_cmp_partial (a b c : Int) :
-    feelAddDtd a b = some (a + b) ∧ feelNegDtd a = some (-a) ∧
-    feelAddDtd a b = feelAddDtd b a ∧
+/-- Durations of either kind under `+`, unary `-` and binary `-` are the ordered abelian group
+of their total lengths (full strength since the repair of F21-*: the evaluator has the arms
+for years-and-months durations and for the difference of days-and-time durations). -/
+theorem dur_add_neg_cmp (a b c : Int) :
+    feelAddDtd a b = some (a + b) ∧ feelNegDtd a = some (-a) ∧ feelSubDtd a b = some (a - b) ∧
+    feelAddYmd a b = some (a + b) ∧ feelNegYmd a = some (-a) ∧ feelSubYmd a b = some (a - b) ∧
+    feelAddDtd a b = feelAddDtd b a ∧ feelAddYmd a b = feelAddYmd b a ∧
     (feelAddDtd a b).bind (feelAddDtd · c) = (feelAddDtd b c).bind (feelAddDtd a ·) ∧
-    (feelNegDtd a).bind (feelAddDtd a ·) = some 0 ∧
+    (feelAddYmd a b).bind (feelAddYmd · c) = (feelAddYmd b c).bind (feelAddYmd a ·) ∧
+    (feelNegDtd a).bind (feelAddDtd a ·) = some 0 ∧ (feelNegYmd a).bind (feelAddYmd a ·) = some 0 ∧
+    (feelNegDtd b).bind (feelAddDtd a ·) = feelSubDtd a b ∧
+    (feelNegYmd b).bind (feelAddYmd a ·) = feelSubYmd a b ∧
     (a < b → a + c < b + c) := by
-  unfold feelAddDtd feelNegDtd
+  unfold feelAddDtd feelNegDtd feelSubDtd feelAddYmd feelNegYmd feelSubYmd
   simp
   omega
 
-theorem dur_add_neg_cmp_counterexample :
-    feelAddYmd 12 1 = none ∧ feelNegYmd 12 = none ∧ feelSubDtd 2 1 = none := by decide
+/-- Regression witnesses of F21-*. -/
+theorem dur_add_neg_cmp_instances :
+    feelAddYmd 12 1 = some 13 ∧ feelNegYmd 12 = some (-12) ∧ feelSubYmd 12 1 = some 11 ∧
+    feelSubDtd 86400000000000 3600000000000 = some 82800000000000 := by decide
 
 end Dmn.C15
